@@ -82,7 +82,7 @@ fn request(ep: u8, tl: usize, t0: u8, id: u16) -> CoapRequest<Ep> {
     req
 }
 
-//@ props=C14,C15 tier=quick timeout=900 mem=10
+//@ props=C14,C15 tier=quick timeout=900 mem=4
 //@ functions=Subject::register, CoapRequest::get_path (empty path), Subject::get_resource
 //@ bounds=pre-state: resource "" with 2 observers (distinct symbolic endpoints, token 0..1 byte, any counter, any pending id), bystander resource "b" with 1 observer, symbolic sequences and limit; request: any endpoint, token 0..1 byte
 //@ what=same endpoint => replaced in place (new token, count 0, no pending id), order kept; new endpoint => appended last; at most one observer per endpoint afterwards; sequence and bystander untouched
@@ -132,7 +132,7 @@ fn c14_register() {
     core::mem::forget(req);
 }
 
-//@ props=C14 tier=quick timeout=900 mem=10
+//@ props=C14 tier=quick timeout=900 mem=7
 //@ functions=Subject::register (new resource)
 //@ bounds=pre-state: only the bystander resource "b"; request on the empty path, any endpoint, token 0..1 byte
 //@ what=registering on an unobserved path creates that resource with exactly this observer, sequence 0; the bystander is untouched
@@ -165,7 +165,7 @@ fn c14_register_new_resource() {
     core::mem::forget(req);
 }
 
-//@ props=C14 tier=quick timeout=900 mem=10
+//@ props=C14 tier=quick timeout=900 mem=4
 //@ functions=Subject::deregister
 //@ bounds=pre-state as c14_register; request: any endpoint, token 0..1 byte
 //@ what=removes exactly the observer whose endpoint and token both match, nothing else; order of the survivors kept; bystander untouched
@@ -203,7 +203,7 @@ fn c14_deregister() {
     core::mem::forget(req);
 }
 
-//@ props=C14 tier=quick timeout=900 mem=16 cap=2 model=0
+//@ props=C14 tier=quick timeout=900 mem=10 cap=2 model=0
 //@ functions=Subject::resource_changed (unobserved path)
 //@ bounds=pre-state: one resource "b" with 1 observer (symbolic endpoint, token 0..1 byte, counter, pending id, sequence), symbolic limit; round for the path "zz" that is not present; any message id, both confirmable flags
 //@ what=a notification round for an unobserved path creates nothing and changes nothing
@@ -226,7 +226,7 @@ fn c14_unobserved_path() {
     core::mem::forget(s);
 }
 
-//@ props=C15,C14 tier=quick timeout=900 mem=10
+//@ props=C15,C14 tier=quick timeout=900 mem=4
 //@ functions=Subject::resource_changed, Subject::set_unacknowledged_limit
 //@ bounds=pre-state as c14_register with any counters 0..255 and any limit 0..255; any message id; both confirmable flags; sequence < u32::MAX
 //@ what=sequence + 1; counters + 1 iff confirmable; observer kept iff its new count (computed without wrap-around) <= limit; survivors keep order, token, endpoint and get the round's message id; no overflow or panic for any limit; bystander untouched
@@ -277,7 +277,7 @@ fn c15_round() {
     core::mem::forget(s);
 }
 
-//@ props=C15 tier=quick timeout=900 mem=10
+//@ props=C15 tier=quick timeout=900 mem=4
 //@ functions=Subject::acknowledge
 //@ bounds=pre-state as c14_register; acknowledgement: any endpoint, any message id
 //@ what=exactly the observers (in every resource) whose endpoint matches and whose pending id equals the acknowledged id are reset (count 0, no pending id); everything else unchanged
@@ -316,7 +316,7 @@ fn c15_acknowledge() {
     core::mem::forget(req);
 }
 
-//@ props=C15 tier=quick timeout=900 mem=10
+//@ props=C15 tier=quick timeout=900 mem=4
 //@ functions=create_notification, Packet::set_observe_value, Packet::set_token, option_from_uint
 //@ bounds=message id: all u16; token 0..8 symbolic bytes; sequence: every u32; payload 0..2 symbolic bytes; both types
 //@ what=notification carries the given token, message id, type (CON/NON), 2.05, payload, version 1, and exactly one Observe value = shortest big-endian form of the sequence
